@@ -74,6 +74,12 @@ func ValidateGenesis(data GenesisState) error {
 					continue
 				}
 
+				// The accumulator is truncated to 18 decimals: rewards released to a very large
+				// stake can leave it at zero.
+				if r.RewardPerShare.IsZero() {
+					continue
+				}
+
 				return fmt.Errorf("rewardPerShare must be positive, but got %s", r.RewardPerShare.String())
 			}
 		}
